@@ -17,7 +17,11 @@ RULE = (
     "exactly once and every j/jal/b* target is a defined label, ra or an in-range line; (2) an independent resolver "
     "(delete label lines, label -> index of the following instruction, whole-token substitution outside quoted "
     "strings) applied to the labelled output must equal the remove_labels=True output line for line; (3) both outputs "
-    "produce the same effect trace on the reference machine and every return lands behind its call. Non-trivial: >= 4 "
+    "produce the same effect trace on the reference machine and every return lands behind its call; (4) for 3 of 4 "
+    "cases the labelled output is compiled again with original_code_as_comment / generated_comments: it must pass (1) "
+    "and produce the same effect trace; (5) the labelled output of the identifier programs (functions ending in "
+    "loops left by return, if/else returns, guard returns, continue, list loops) produces the effect trace of the "
+    "reference interpreter. Non-trivial: >= 4 "
     "distinct labels referenced and an identifier pair in prefix relation or containing '_'; distinct by SHA-1 of source."
 )
 ASSUMPTIONS = [
@@ -113,7 +117,7 @@ def check_case(case, stats=None, K=oracle.K_QUICK):
         raise Violation("C05:label-mode-changes-acceptance", {"labelled": oracle.public(lab), "numbered": oracle.public(num), "opts": base})
     if "error" in lab:
         if stats is not None:
-            stats.discarded["reject:" + ("registers" if "out of registers" in lab["error"]["description"] else oracle.norm_error(lab["error"]["description"]))] += 1
+            stats.discarded["reject:" + ("registers" if "out of registers" in lab["error"]["description"] else oracle.error_class(lab["error"]["description"]))] += 1
         return
     detail = {"opts": base, "labelled": lab["code"], "numbered": num["code"]}
     bad, referenced = structural(lab["code"])
@@ -150,6 +154,39 @@ def check_case(case, stats=None, K=oracle.K_QUICK):
         if kind == "mismatch":
             raise Violation("C05:label-modes-behave-differently:" + d["what"] + oracle.shape_suffix(srcs), dict(detail, compare=d))
         ms.append(pair[0])
+    # the targets chosen are the ones the source constructs mean: same effects as the reference interpreter
+    if case.get("source_oracle"):
+        for es in case["env_seeds"]:
+            r = oracle.diff_run(srcs, dict(base, remove_labels=False), es, case["pool"], K, res=lab)
+            if r["kind"] in ("mismatch", "vmerror"):
+                sig = r.get("root") or ("C05:control-flow-differs-from-source:" + (r["detail"]["what"] if r["kind"] == "mismatch" else r["vmkind"]))
+                raise Violation(sig, dict(detail, compare=r.get("detail"), src_trace=compare.jsonable(r["it"].trace[:10]),
+                                          vm_trace=compare.jsonable(r["m"].trace[:10])))
+            if stats is not None:
+                if r["kind"] in ("unsupported", "srcerror", "nan"):
+                    stats.discarded["source-oracle-" + r["kind"] + ":" + r.get("why", "")[:30]] += 1
+                elif r["kind"] == "ok":
+                    stats.classes["agrees-with-reference-interpreter"] += 1
+    # comments appended to the lines must not disturb the label bookkeeping of the labelled output
+    cm = case.get("comments")
+    if cm:
+        labc = oracle.compile_case(srcs, dict(base, remove_labels=False, **cm))
+        if "error" in labc:
+            raise Violation("C05:comments-change-acceptance", dict(detail, error=labc["error"].get("description", "")[:300], comment_opts=cm))
+        badc, _ = structural(labc["code"])
+        if badc:
+            raise Violation(badc[0] + ":with-comments" + collision_suffix(srcs), dict(detail, commented=labc["code"], comment_opts=cm, **badc[1]))
+        for es, m0 in zip(case["env_seeds"], ms):
+            m = ic10vm.Machine(labc["code"], compare.make_env(es, case["pool"]), tables.enum_tables(), max_steps=30000, max_effects=K)
+            try:
+                m.run()
+            except ic10vm.VMError as e:
+                raise Violation("C05:vmerror-with-comments:" + e.kind, dict(detail, commented=labc["code"], comment_opts=cm, error=str(e)))
+            kind, d = compare.compare_vm_vm(m0, m)
+            if kind == "mismatch":
+                raise Violation("C05:commented-output-behaves-differently:" + d["what"], dict(detail, commented=labc["code"], comment_opts=cm, compare=d))
+        if stats is not None:
+            stats.classes["with-comment-options"] += 1
     if stats is not None:
         names = case.get("names", [])
         tricky = any("_" in n for n in names) or any(a != b and b.startswith(a) for a in names for b in names)
@@ -202,6 +239,7 @@ def cases(draw):
             body += [f"    c = 0", f"    while c < 2:", f"        c += 1", f"        if d2.On > c:", f"            continue", f"        d3.Setting = c"]
         elif shape == 5:
             body += [f"    d3.Setting = [4, 5, 6][min(max(d3.On, 0), 2)]"]
+        tail = draw(st.integers(0, 9))
         # calls to earlier functions visible from this file
         vis = [d for d in defined if d[3] == o or (o == -1 and d[3] >= 0)]
         for _ in range(draw(st.integers(0, 2))):
@@ -210,7 +248,20 @@ def cases(draw):
                 cname = c[0] if (c[3] == o) else f"{aliases[c[3]]}.{c[0]}"
                 call = f"{cname}({', '.join(str(7 + k) for k in range(c[1]))})"
                 body.append(f"    d4.Setting = {call}" if c[2] else f"    {call}")
-        if has_ret:
+        if tail == 0:
+            # the function's last source line is a return inside a loop
+            body += ["    k = 0", "    while True:", "        k += 1", f"        d3.Mode = k + {i}", f"        if d2.On < k:",
+                     (f"            return k + {i}" if has_ret else "            return")]
+        elif tail == 1:
+            body += ["    for k in range(4):", f"        d3.Mode = k + {i}", f"        if d2.On < k:",
+                     (f"            return k + {i}" if has_ret else "            return")]
+            if has_ret:
+                body.append(f"    return {i}")  # a value on every path (F-D25 is about functions that lack it)
+        elif tail == 2 and has_ret:
+            body += [f"    if d1.On > 2:", f"        return {i}", "    else:", f"        d3.Mode = {i}", f"        return {i} + 1"]
+        elif tail == 3 and not has_ret:
+            body += [f"    if d1.On > 2:", "        return", f"    d3.Mode = {i}"]
+        elif has_ret:
             body.append(f"    return {i} + d5.Setting")
         srcs[mods[o] if o >= 0 else ""] += body
         defined.append((fn, npar, has_ret, o))
@@ -225,7 +276,9 @@ def cases(draw):
     return {
         "src": {k: "\n".join(v) + "\n" for k, v in srcs.items()},
         "env_seeds": [draw(st.integers(0, 2**31 - 1))], "pool": compare.DEFAULT_POOL,
-        "opts": VECS[draw(st.integers(0, len(VECS) - 1))], "names": fnames + list(aliases), "modules": bool(mods),
+        "opts": VECS[draw(st.integers(0, len(VECS) - 1))], "names": fnames + list(aliases), "modules": bool(mods), "source_oracle": True,
+        "comments": draw(st.sampled_from([None, {"original_code_as_comment": True}, {"generated_comments": True},
+                                          {"original_code_as_comment": True, "generated_comments": True}])),
     }
 
 
